@@ -422,6 +422,8 @@ def build_run_model(
         dyn_params = runner.model.get_input_parameters()
 
     dyn_params = [f"parameters.{p}" if not p.startswith("parameters.") else p for p in dyn_params]
+    # The dynamic parameters as requested (the list is narrowed to the model graph below)
+    requested_dyn_params = set([p[len("parameters.") :] for p in dyn_params])
 
     # dyn_params may contain parameters only used in derived outputs, that do not show up
     # in the main graph.  These need to be filtered out; they will be computed every time,
@@ -569,7 +571,10 @@ def build_run_model(
     do_params = set(
         [v.key for v in m._do_tracker_graph.get_input_variables() if v.source == "parameters"]
     )
-    do_base_params = {k: v for k, v in base_params.items() if k in do_params}
+    # Dynamic parameters always come from the call, never from the values this runner was built with
+    do_base_params = {
+        k: v for k, v in base_params.items() if k in do_params and k not in requested_dyn_params
+    }
 
     def get_flows_for_outputs(outputs, static_graph_vals, model_data):
         # Empty array to kick-start flow rates from outputs
